@@ -738,6 +738,22 @@ def envfilter_interest(ck, F, rid="C08.R11"):
     else:
         ck.bad(rid, key, where(rc.raw["sp"]), "%s: inside a span matched by a span directive `enabled` accepts the callsite, but the cached `never` means it is never asked"
                % "; ".join(sorted(set(nevers)))[:300], fn=rc.path)
+    # ... and a stored matcher justifies `always` only for a span `enabled` would accept: enabled() looks at the callsite's
+    # matcher only behind `dynamics.max_level >= level`, so `always` for a span more verbose than every span directive
+    # contradicts the decision (visible through `.not()`, or next to a filter that forces `enabled` to be asked)
+    unbounded = []
+    for p in PathEval(rc).run():
+        if p.end != "return" or show(p.ret) != "always()":
+            continue
+        conds = [(show(c[0]), c[1]) for c in p.conds]
+        if any(t.startswith("discr(matcher(arg1.dynamics") and v == 1 for t, v in conds) and not any("max_level" in t for t, v in conds):
+            unbounded.append(1)
+    keyk = "EnvFilter::register_callsite answers `always` for a matched span only within the span directives' max level"
+    if unbounded:
+        ck.bad(rid, keyk, where(rc.raw["sp"]), "`always` is returned for any span callsite a span directive names, without comparing its level with dynamics.max_level, "
+               "while EnvFilter::enabled rejects such a span when it is more verbose than every span directive", fn=rc.path)
+    else:
+        ck.ok(rid, keyk, fn=rc.path)
     key = "EnvFilter::register_callsite publishes `always` only for what the static directives enable or a stored span matcher covers"
     if rows and not always_bad:
         ck.ok(rid, key, fn=rc.path)
